@@ -96,7 +96,7 @@ func checkOutboundFlows(r *Result, prop string) []Violation {
 				u := get(id)
 				pid := uint16(e.N)
 				if old := u[pid]; old != nil && old.payload != payload && prop == "C10" {
-					out = append(out, viol("C10", "packet-id-reused-while-unacked", fmt.Sprintf("session %q: packet id %d assigned to %q while %q is still unacknowledged under the same id", id, pid, payload, old.payload), e.Seq, "client_used_same_id", fmt.Sprint(old.collided), "rm_limited", sessRMLimited(r, id, e.Seq)))
+					out = append(out, viol("C10", "packet-id-reused-while-unacked", fmt.Sprintf("session %q: packet id %d assigned to %q while %q is still unacknowledged under the same id", id, pid, payload, old.payload), e.Seq, "client_used_same_id", fmt.Sprint(old.collided), "rm_limited", sessRMLimited(r, id, e.Seq), "session_taken_over", fmt.Sprint(sessConnections(r, id, e.Seq) > 1)))
 				}
 				if old := u[pid]; old == nil || old.payload != payload {
 					u[pid] = &outMsg{pid: pid, payload: payload, stage: 1, seq: e.Seq}
@@ -343,6 +343,18 @@ func checkOutboundFlows(r *Result, prop string) []Violation {
 		}
 	}
 	return out
+}
+
+// sessConnections: how many connections with this client id were opened before seq (more than one: the session
+// went through a resume or takeover, where the broker moves its state between client objects).
+func sessConnections(r *Result, sess string, before int) int {
+	n := 0
+	for _, c := range r.Ex.Conns {
+		if sessIDOfConn(c) == sess && c.openSeq < before {
+			n++
+		}
+	}
+	return n
 }
 
 // sessRMLimited: did a connection of the session opened before seq declare a small Receive Maximum (so that the
